@@ -49,6 +49,9 @@ struct Model {
   int colmode = 1;             // 0 none, 1 'k' cumulative, 2 'K' plain
   std::string order = "FSVCLOdxrbkJG";
   std::vector<int> colsizes() const;   // number of Jacobian nonzeros per variable
+  Json to_json() const;
+  // tolerant of shrinking: entries that refer to items no longer present are dropped
+  static Model from_json(const Json& j);
 };
 
 struct GenOpts {
